@@ -36,8 +36,8 @@ ErrorLike(t) == t \in {"err", "erS"}
 Implements(t, i) == (i = "I0" /\ t \in {"T0", "T1", "T7", "NS"})
 
 \* strconv.ParseBool on the tag alphabet
-BoolOK(s)   == s \in {"", "true", "false", "1", "0", "t", "f"}
-BoolTrue(s) == s \in {"true", "1", "t"}
+BoolOK(s)   == s \in {"", "true", "false", "1", "0", "t", "f", "True", "TRUE", "T", "False", "FALSE", "F"}
+BoolTrue(s) == s \in {"true", "1", "t", "True", "TRUE", "T"}
 
 \* parseGroupString: <<ok, name, flatten, soft>>
 GroupParse(g) ==
@@ -224,7 +224,7 @@ Fld(x, t, n, op, g) == [x |-> x, ty |-> t, name |-> n, opt |-> op, grp |-> g]
 FieldTypesP == {"T0", "sT0", "IN1", "OUT1", "pIN1", "err", "int", "IN2", "aT0", "aBig"}
 FieldTypesR == {"T0", "sT0", "OUT1", "IN1", "pOUT1", "err", "NS", "ssT0", "erS", "OUT2", "aT0"}
 NamesT  == {"", "n"}
-OptT    == {"", "true", "false", "yes"}
+OptT    == {"", "true", "false", "yes", "True", "F"}
 GroupT  == {"", "g", "g ", "g,flatten", "g,soft", "g,bogus", ",flatten", "g,flatten,soft"}
 
 FieldsP == {Fld(x, t, n, op, g) : x \in BOOLEAN, t \in FieldTypesP, n \in NamesT, op \in OptT, g \in GroupT}
@@ -276,6 +276,11 @@ CasesResults2 == {[s |-> Fn(<<>>, FALSE, <<r, q>>), o |-> NoOpts] :
                     r \in {Plain("T0"), Plain("err"), Plain("erS"), Item("out", "", <<Fld(TRUE, "T0", "", "", "")>>, "")},
                     q \in {Plain("T0"), Plain("T1"), Plain("err"), Plain("erS"), Plain("OUT2"), Item("out", "", <<Fld(TRUE, "T0", "n", "", "")>>, ""),
                            Item("out", "", <<Fld(TRUE, "T0", "", "", "g")>>, "")}}
+\* the same result-object type twice among the results of one function (its single keys collide)
+CasesResultsTwice == {[s |-> Fn(<<>>, FALSE, <<r, r>>), o |-> NoOpts] :
+                        r \in {Plain("OUT1"), Plain("OUT2"), Item("out", "", <<Fld(TRUE, "T0", "", "", "")>>, ""),
+                               Item("out", "", <<Fld(TRUE, "T0", "n", "", "")>>, ""), Item("out", "", <<Fld(TRUE, "T0", "", "", "g")>>, ""),
+                               Item("out", "", <<Fld(TRUE, "OUT1", "", "", "")>>, "")}}
 CasesOpts    == {[s |-> Fn(<<>>, FALSE, <<r>>), o |-> o] :
                     r \in {Plain("T0"), Plain("sT0"), Plain("NS"), Plain("I0"), Plain("OUT1"), Plain("OUT2"),
                            Item("out", "", <<Fld(TRUE, "T0", "n", "", "")>>, "")},
@@ -293,7 +298,7 @@ CasesNonFunc == {[s |-> NonFunc(k), o |-> NoOpts] : k \in {"nil", "int", "struct
                 \cup {[s |-> Fn(<<>>, FALSE, <<>>), o |-> NoOpts], [s |-> Fn(<<>>, FALSE, <<Plain("err")>>), o |-> NoOpts]}
 
 AllCases == CasesParams \cup CasesParams2 \cup CasesResults \cup CasesResults2 \cup CasesOpts \cup CasesNonFunc
-            \cup CasesLoc \cup CasesVariadic \cup CasesVariadicTy
+            \cup CasesLoc \cup CasesVariadic \cup CasesVariadicTy \cup CasesResultsTwice
 
 -----------------------------------------------------------------------------
 (* Enumeration as a trivial state machine: one initial state per case *)
